@@ -235,6 +235,7 @@ func ruleOPT2(p *Program) *RuleResult {
 		return r.anchorFail(fmt.Errorf("anchor: EnvVariable has %d closures", len(ev.AnonFuncs)))
 	}
 	cb := ev.AnonFuncs[0]
+	vtFn, _ := p.Func("fhirpath/evalopts", "validateType")
 	var lookup *ssa.Lookup
 	var mu *ssa.MapUpdate
 	var vt *ssa.Call
@@ -248,7 +249,7 @@ func ruleOPT2(p *Program) *RuleResult {
 			case *ssa.MapUpdate:
 				mu = x
 			case *ssa.Call:
-				if sc := x.Common().StaticCallee(); sc != nil && sc.Name() == "validateType" {
+				if sc := x.Common().StaticCallee(); sc != nil && vtFn != nil && sc == vtFn {
 					vt = x
 				}
 			}
